@@ -1367,6 +1367,46 @@ def gen_digit_labels(rng, nmin=11, nmax=16):
     return None
 
 
+def gen_retry(rng):
+    """A stopping cycle THROUGH THE INITIAL STATE: some Player-2 / Player-1 / probabilistic state X has a 'try again' move back to
+    state 0 which is its reward-optimal (and reach-optimal) choice, next to a 'pay' move to an expensive / cheap exit.  State index
+    0 then occurs as a successor in every role (selected successor, non-selected successor, probabilistic branch)."""
+    p = rng.choice([F(1, 2), F(1, 3), F(3, 4), F(9, 10)])
+    leak = rng.choice([F(0), F(0), F(1, 10)])
+    kind = rng.choice([P2, P2, P1, PR])
+    # 0 start, 1 X, 2 exit E, 3 final, 4 sink
+    players = [PR, kind, PR, PR, PR]
+    rewards = [F(rng.randint(0, 4)), F(rng.randint(0, 4)), None, F(0), F(0)]
+    tr0 = [(p * (1 - leak), 1), ((1 - p) * (1 - leak), 3)] + ([(leak, 4)] if leak else [])
+    rng.shuffle(tr0)
+    if kind == P2:
+        rewards[2] = F(rng.randint(200, 900))          # paying is dear: retrying is reward-minimal
+        trx = [("retry", 0), ("pay", 2)]
+    elif kind == P1:
+        rewards[2] = F(0)
+        rewards[0] = F(rng.randint(1, 4))              # retrying collects state 0's reward again: reward-maximal
+        trx = [("retry", 0), ("pay", 2)]
+    else:
+        rewards[2] = F(rng.randint(0, 9))
+        a = rng.choice([F(1, 2), F(1, 4)])
+        trx = [(a, 0), (1 - a, 2)]
+    if rng.random() < 0.5:
+        trx.reverse()
+    tl = [tr0, trx, [(F(1), 3)], [(F(1), 3)], [(F(1), 4)]]
+    if leak and kind != PR and rng.random() < 0.5:
+        # the exit is also worse for reachability: retrying is the single reach-optimal move of a Player-1 state / the exit the single
+        # reach-minimal move of a Player-2 state
+        tl[2] = [(F(1, 2), 3), (F(1, 2), 4)]
+    if rng.random() < 0.4:
+        # state 0 is a player state with a forced move into the old start
+        n = len(players)
+        players.append(players[0]); rewards.append(rewards[0]); tl.append(tl[0])
+        owner = rng.choice([P1, P2])
+        players[0], tl[0], rewards[0] = owner, [("go", n)], F(rng.randint(0, 2))
+    gd = {"rewards": rewards, "players": players, "transition_list": tl, "final_states": [3]}
+    return renumber_random(rng, gd) if rng.random() < 0.5 else gd
+
+
 CLASSES = ["G-ACY", "G-CYC", "G-SLOW", "G-EC", "G-DEAD", "G-TIE", "G-LEX", "G-TINY"]
 
 
@@ -1424,6 +1464,8 @@ def gen_class(rng, cls, **kw):
         return gen_empty_label(rng)
     if cls == "G-NOREACH":
         return gen_no_reach(rng)
+    if cls == "G-RETRY":
+        return gen_retry(rng)
     if cls == "G-GAP":
         return gen_gap(rng)
     if cls == "G-GAPLOOP":
